@@ -115,7 +115,11 @@ def lexicon_rich(p, lid='L', ver='1', style='1.1', tag=''):
                 lex['frames'][1]['id'] = t + 'fr2'
                 s2['subcat'] = [t + 'fr2']
             s1['subcat'] = [t + 'fr1'] + ([t + 'fr2'] if p.has(t + 'frame_id2') else [])
-            e2['senses'][0]['subcat'] = [t + 'fr1']
+            if p.sym.get('has_' + t + 'frame_senses', False):
+                # a lexicon-level frame that lists a sense itself *and* is referenced by subcat
+                lex['frames'][0]['senses'] = [t + 's3']
+            else:
+                e2['senses'][0]['subcat'] = [t + 'fr1']
     else:
         if p.has(t + 'frames'):
             # 1.0: frame 1 names its senses, frame 2 applies to all senses of the entry
